@@ -84,6 +84,28 @@ THEOREMS.update({
 EXPLANATION += ("  CONSTRUCTOR: MSEDistance.__init__ is re-translated on every run (LS_INIT_MSE -> Generated/SrcInits.v) and proved to store its flag; "
                 "trusted: the translator only (no primitive): `self.<attr>` is a variable of the translation (attr_vars), the value of the translated __init__ is the tuple of the attributes when it ends; an attribute that is not declared is refused.")
 
+# ---- gap review G7.2: calculate_distance_matrix.get_args translated, main() as a whole command (Generated/SrcCliArgsDist.v, Proofs/C07SourceArgs.v) ----
+THEOREMS.update({
+    "C07_model_is_source_cli_args_get_args": "the translation of the WHOLE function calculate_distance_matrix.get_args (parse_args() = the raw namespace) equals Cli.cd_get_args: class lookup among DistanceMetric subclasses, its required-argument annotations, --distance-metric-param cast by them ({} when the option is absent), stored in metric_cls / metric_params; no other attribute of the namespace is written (args.thetas keeps its command-line order)",
+    "C07_model_is_source_cli_args_calculate_distance_matrix": "calculate_distance_matrix.main translated as a whole command (get_args() = the translated get_args; args.metric_cls(**args.metric_params) = construct on the two attributes) equals Cli.cli_calculate_distance_matrix_cmd",
+    "C07_model_is_source_cli_args_calculate_distance_matrix_world": "the same with the introspection record made of the TRANSLATED get_class / get_required_init_args_with_annotations (Props/C18.v)",
+    "C07_cli_metric_is_configured": "whenever the translated command writes its file: the class named by --distance-metric was found, the --distance-metric-param items were cast by its required-argument annotations, construct on that class and EXACTLY those parameters gave the metric, and the file holds what the library computes with that metric (an option that is dropped or ignored contradicts this)",
+    "C07_cli_defaulted_metric_param_is_key_error": "observation, outside the property: a --distance-metric-param key naming an __init__ argument that has a default is a KeyError (types are looked up among required arguments only) - so MSEDistance's only option sigmoid cannot be given on the command line",
+})
+RULE += ("  cli (gap review G7.2 + seeded C07-m9): several --thetas files whose command-line order differs from the lexicographic order of their paths "
+         "(12 single-sample files chain_0..chain_11 in numeric order, 3 files reversed, random shuffles; distinct predictions per posterior sample), 1 and several chunks: entry (i,j) of the assembled "
+         "matrix = the configured metric on posterior samples i and j in COMMAND-LINE order (chain-major); --distance-metric-param on a harness-defined DistanceMetric with required "
+         "annotated arguments (every boolean spelling, a float; the constructor refuses uncast strings) and on MSEDistance (sigmoid=...: KeyError on the unchanged tree = feature "
+         "defaulted-param-refused, no verdict; if the command runs the entries must be those of the metric as configured).")
+EXPLANATION += ("  CLI ARGUMENTS (gap review G7.2): calculate_distance_matrix.get_args and main() as a whole command are re-translated on every run (configurations ARGS_GET_ARGS_CD / ARGS_CMD_CD, "
+                "Generated/SrcCliArgsDist.v) and proved equal to Cli.cd_get_args / cli_calculate_distance_matrix_cmd.  Trusted there: the translator; get_parser() = a handle, parser.parse_args() = the raw "
+                "namespace `raw` (ANY record cd_ns; the option table itself is read by argparse_reader and stated in C18), introspection.get_class / get_required_init_args_with_annotations = the components of the "
+                "introspection record (instantiated by their own translations in the _world theorem), cast_dict_to_type = its translation, DistanceMetric = the base-class token, "
+                "c(**p) = construct c p; the namespace attributes get_args may WRITE are metric_cls and metric_params only (a store to any other attribute, e.g. args.thetas, is refused: broken obligation).  "
+                "Runtime: kind cli runs main() in-process with --distance-metric-param; the parametrised metric class is defined by the harness and made visible to get_class as an attribute of the module "
+                "batchie.distance.mse for the duration of the case (the package ships no metric with a required argument).  OBSERVATION (not a clause of C07): on the unchanged tree "
+                "`--distance-metric-param sigmoid=false` raises KeyError('sigmoid') because parameter types are looked up only among __init__ arguments without a default. ")
+
 
 def _tmpdir():
     os.makedirs(common.WORK, exist_ok=True)
@@ -166,6 +188,9 @@ def gen(rng, tier):
         order = list(range(c)) + [rng.randrange(c) for _ in range(rng.randint(0, 2))]
         rng.shuffle(order)
         yield dict(kind="cli", chains=[n1, n2], c=c, order=order, alphas=[rng.randint(-24, 24) / 8.0 for _ in range(n)])
+    # ... several --thetas files whose command-line order is NOT the lexicographic order of their paths (the matrix index is
+    # the position in command-line order, chain-major), and --distance-metric-param (gap review G7.2)
+    yield from _gen_cli_files(rng, tier)
     # mse
     for _ in range(60 if tier == "quick" else 600):
         m = rng.choice([0, 1, 1, 2, 3, 5, 8])
@@ -173,6 +198,71 @@ def gen(rng, tier):
         a = mk()
         b = rng.choice([mk(), list(a)])
         yield dict(kind="mse", sigmoid=rng.random() < 0.5, a=a, b=b)
+
+
+def _distinct_alphas(rng, n):
+    """n different logits on a grid of eighths: every posterior sample predicts a different viability"""
+    return [x / 8.0 for x in rng.sample(range(-24, 25), n)]
+
+
+_BOOL_WORDS = {True: ["true", "T", "yes", "y", "1", "True"], False: ["false", "F", "no", "n", "0", "False"]}
+
+
+def _gen_cli_files(rng, tier):
+    big = tier != "quick"
+
+    def case(names, chains, c, mparam=None, repeat=0):
+        n = sum(chains)
+        order = list(range(c)) + [rng.randrange(c) for _ in range(repeat)]
+        rng.shuffle(order)
+        d = dict(kind="cli", chains=chains, names=names, c=c, order=order, alphas=_distinct_alphas(rng, n))
+        if mparam is not None:
+            d.update(mparam)
+        return d
+
+    def mparam():
+        r = rng.random()
+        if r < 0.34:
+            return None
+        if r < 0.5:      # the shipped metric, its only option: today a KeyError (the option is looked up among required arguments)
+            b = rng.random() < 0.7
+            return dict(metric="MSEDistance", params=[["sigmoid", rng.choice(_BOOL_WORDS[not b]), "bool", not b]])
+        sg = rng.random() < 0.5
+        sc = rng.choice([0.5, 2.0, 3.0, 0.25])
+        ps = [["sigmoid", rng.choice(_BOOL_WORDS[sg]), "bool", sg], ["scale", repr(sc), "float", sc]]
+        if rng.random() < 0.5:
+            ps.reverse()
+        return dict(metric="VerifParamMSE", params=ps)
+
+    # twelve single-sample files chain_0 .. chain_11 in numeric order (chain_10 sorts before chain_2), 1 and several chunks
+    yield case(["chain_%d.h5" % i for i in range(12)], [1] * 12, 1)
+    yield case(["chain_%d.h5" % i for i in range(12)], [1] * 12, 3, mparam=dict(metric="VerifParamMSE", params=[["scale", "2.0", "float", 2.0], ["sigmoid", "no", "bool", False]]))
+    # three files in reverse lexicographic order, unequal sizes
+    yield case(["c.h5", "b.h5", "a.h5"], [2, 1, 2], 1)
+    yield case(["c.h5", "b.h5", "a.h5"], [1, 2, 1], 4, repeat=1)
+    # the only option of the only shipped metric
+    yield case(["t.h5"], [3], 2, mparam=dict(metric="MSEDistance", params=[["sigmoid", "false", "bool", False]]))
+    for _ in range(6 if not big else 60):
+        k = rng.choice([2, 3, 3, 4, 5, 11])
+        chains = [rng.choice([1, 1, 2]) for _ in range(k)] if k < 11 else [1] * k
+        scheme = rng.choice(["numeric", "shuffled", "reversed"])
+        if scheme == "numeric" and k < 11:
+            names = ["chain_%d.h5" % i for i in rng.sample(range(8, 13), min(k, 5))]
+            names = sorted(names, key=lambda s_: int(s_[6:-3]))      # numeric order; 8, 9 sort after 10 lexicographically
+            chains = chains[:len(names)]
+        elif scheme == "numeric":
+            names = ["chain_%d.h5" % i for i in range(k)]
+        else:
+            names = ["%s.h5" % ch for ch in "abcdefghijkl"[:k]]
+            if scheme == "reversed":
+                names.reverse()
+            else:
+                while names == sorted(names):
+                    rng.shuffle(names)
+        n = sum(chains)
+        npairs = n * (n - 1) // 2
+        c = rng.choice([1, 2, 3, npairs + 1]) if n <= 6 else rng.choice([1, 2, 3])
+        yield case(names, chains, c, mparam=mparam(), repeat=rng.choice([0, 0, 1]))
 
 
 def _gen_script(rng):
@@ -427,13 +517,37 @@ def run(desc):
     raise ValueError(k)
 
 
+def _param_metric_cls():
+    """a DistanceMetric with REQUIRED annotated __init__ arguments (the package ships none): the scaled MSE.  Made visible to
+    introspection.get_class by a module attribute set for the duration of one case (in this process only; /repo is untouched)."""
+    from scipy.special import expit
+
+    from batchie.core import DistanceMetric
+
+    class VerifParamMSE(DistanceMetric):
+        def __init__(self, sigmoid: bool, scale: float, power: int = 2):
+            if type(sigmoid) is not bool or type(scale) is not float:
+                raise TypeError("VerifParamMSE: parameters were not cast by their annotations: %r %r" % (sigmoid, scale))
+            self.sigmoid, self.scale, self.power = sigmoid, scale, power
+
+        def distance(self, a, b):
+            if self.sigmoid:
+                a, b = expit(a), expit(b)
+            return self.scale * np.mean((a - b) ** self.power)
+
+    return VerifParamMSE
+
+
 def _run_cli(desc):
-    """calculate_distance_matrix.main() per chunk index on real files, then concat + to_dense"""
+    """calculate_distance_matrix.main() per chunk index on real files, then concat + to_dense.  The --thetas files are given in
+    the order of desc["names"] (default thetas_0.h5, thetas_1.h5); posterior sample i of the property is the i-th sample in
+    COMMAND-LINE order, chain-major.  desc["metric"] / desc["params"]: --distance-metric and --distance-metric-param words."""
     import sys
     from unittest import mock
 
     from scipy.special import expit
 
+    import batchie.distance.mse as mse_mod
     from batchie.cli import calculate_distance_matrix
     from batchie.core import ThetaHolder
     from batchie.data import Screen
@@ -441,6 +555,8 @@ def _run_cli(desc):
     from batchie.models.sparse_combo import SparseDrugComboMCMCSample
 
     alphas, chains, c, order = desc["alphas"], desc["chains"], desc["c"], desc["order"]
+    names = desc.get("names") or ["thetas_%d.h5" % ci for ci in range(len(chains))]
+    metric, params = desc.get("metric", "MSEDistance"), desc.get("params") or []
     n = len(alphas)
     d = _tmpdir()
     try:
@@ -456,33 +572,57 @@ def _run_cli(desc):
                 h.add_theta(SparseDrugComboMCMCSample(W=np.zeros((2, 1)), W0=np.zeros((2,)), V2=np.zeros((2, 1)), V1=np.zeros((2, 1)),
                                                       V0=np.zeros((2,)), alpha=float(a), precision=1.0))
             pos += m
-            fn = os.path.join(d, "thetas_%d.h5" % ci)
+            fn = os.path.join(d, names[ci])
             h.save_h5(fn)
             files.append(fn)
+        extra = []
+        for k_, word, _t, _v in params:
+            extra += ["--distance-metric-param", "%s=%s" % (k_, word)]
 
         def go():
             ms = []
             for p_, idx in enumerate(order):
                 out = os.path.join(d, "dist_%d.h5" % p_)
                 argv = ["calculate_distance_matrix", "--data", os.path.join(d, "screen.h5"), "--thetas"] + files + [
-                    "--distance-metric", "MSEDistance", "--n-chunks", str(c), "--chunk-index", str(idx), "--output", out]
-                common.run_cli_main(calculate_distance_matrix, argv)
+                    "--distance-metric", metric] + extra + ["--n-chunks", str(c), "--chunk-index", str(idx), "--output", out]
+                with mock.patch.object(mse_mod, "VerifParamMSE", _param_metric_cls(), create=True):
+                    common.run_cli_main(calculate_distance_matrix, argv)
                 ms.append(ChunkedDistanceMatrix.load(out))
             return ChunkedDistanceMatrix.concat(ms).to_dense()
         out = impl_call(go)
     finally:
         shutil.rmtree(d, ignore_errors=True)
     pred = None
-    if isinstance(out, ImplError):
+    feats = ["cli"] + (["trivial"] if n < 2 else []) + (["two-chain-files"] if all(chains) and len(chains) == 2 else [])
+    if len(files) > 1 and files != sorted(files):
+        feats.append("thetas-order-not-lexicographic")
+    if len(files) > 2:
+        feats.append("many-thetas-files")
+    if params:
+        feats.append("metric-param:" + metric)
+    conf = {k_: v_ for k_, _w, _t, v_ in params}
+    sigmoid, scale = conf.get("sigmoid", True), conf.get("scale", 1.0)
+    # the shipped MSEDistance has no required argument: the unchanged tree refuses its only option with KeyError (observation
+    # recorded in Props/C07.v, C07_cli_defaulted_metric_param_is_key_error); not a clause of C07, so no verdict - but when the
+    # command DOES run, the entries must be those of the metric as configured
+    refused = (isinstance(out, ImplError) and metric == "MSEDistance" and params and out.cls == "KeyError"
+               and out.msg.strip("'\"") in conf)
+    if refused:
+        feats.append("defaulted-param-refused")
+    elif isinstance(out, ImplError):
         pred = "CLI pipeline over a covering family of chunks failed: %r" % (out,)
     else:
         v = [float(np.clip(expit(a), 0.01, 0.99)) for a in alphas]
-        for i in range(n):
+        f = (lambda x: float(expit(x))) if sigmoid else (lambda x: x)
+        if out.shape != (n, n):
+            pred = "CLI-assembled matrix has shape %r for %d posterior samples" % (out.shape, n)
+        for i in range(n if pred is None else 0):
             for j in range(n):
-                e = 0.0 if i == j else (float(expit(v[i])) - float(expit(v[j]))) ** 2
+                e = 0.0 if i == j else scale * (f(v[i]) - f(v[j])) ** 2
                 if abs(out[i, j] - e) > 1e-12:
-                    pred = "CLI-assembled matrix entry (%d,%d) = %r, metric on the two predictions = %r" % (i, j, float(out[i, j]), e)
-    return dict(wire=None, impl=None, pred=pred, features=["cli"] + (["trivial"] if n < 2 else []) + (["two-chain-files"] if all(chains) else []))
+                    pred = ("CLI-assembled matrix entry (%d,%d) = %r, the configured metric on posterior samples %d and %d (command-line order) = %r"
+                            % (i, j, float(out[i, j]), i, j, e))
+    return dict(wire=None, impl=None, pred=pred, features=feats)
 
 
 def shrink(desc):
